@@ -358,9 +358,9 @@ Proof.
   induction ks as [|k r IH]; intros i st stf tr G E; cbn [seq_from] in E.
   - injection E as <- <-. split; [exact G|constructor].
   - destruct (ktransition LIT g (internal i) k (orc i st) st) as [st1|] eqn:K; [|discriminate].
-    destruct (seq_from LIT g internal orc (S i) r st1) as [[s2 t2]|] eqn:S; [|discriminate].
+    destruct (seq_from LIT g internal orc (S i) r st1) as [[s2 t2]|] eqn:Sq; [|discriminate].
     injection E as <- <-. pose proof (ktransition_good _ _ _ _ _ G K) as G1.
-    destruct (IH (S i) st1 s2 t2 G1 S) as [A B]. split; [exact A|constructor; assumption].
+    destruct (IH (S i) st1 s2 t2 G1 Sq) as [A B]. split; [exact A|constructor; assumption].
 Qed.
 
 (* the iteration is the left fold of the kernels: splitting the sequence anywhere *)
@@ -397,8 +397,8 @@ Proof.
   induction ks as [|k r IH]; intros i0 st stf tr E; cbn [seq_from] in E.
   - injection E as <- <-. split; [reflexivity|]. split; [reflexivity|]. intros [|j] k H; discriminate.
   - destruct (ktransition I g (internal i0) k (orc i0 st) st) as [st1|] eqn:K; [|discriminate].
-    destruct (seq_from I g internal orc (S i0) r st1) as [[s2 t2]|] eqn:S; [|discriminate].
-    injection E as <- <-. destruct (IH (S i0) st1 s2 t2 S) as [L [H0 Hs]].
+    destruct (seq_from I g internal orc (S i0) r st1) as [[s2 t2]|] eqn:Sq; [|discriminate].
+    injection E as <- <-. destruct (IH (S i0) st1 s2 t2 Sq) as [L [H0 Hs]].
     split; [cbn; rewrite L; reflexivity|]. split; [reflexivity|].
     intros [|j] k' Hk.
     + cbn in Hk. injection Hk as <-. rewrite Nat.add_0_r. cbn [nth]. rewrite H0. exact K.
@@ -442,8 +442,8 @@ Proof.
   induction its as [|it r IH]; intros st st' G E; cbn [iterate] in E.
   - injection E as <-. exact G.
   - unfold seq_transition in E.
-    destruct (seq_from LIT g (fst it) (snd it) 0 ks st) as [[s1 tr]|] eqn:S; [|discriminate].
-    apply (IH s1 st'); [|exact E]. exact (proj1 (seq_from_good _ _ _ _ _ _ _ G S)).
+    destruct (seq_from LIT g (fst it) (snd it) 0 ks st) as [[s1 tr]|] eqn:Sq; [|discriminate].
+    apply (IH s1 st'); [|exact E]. exact (proj1 (seq_from_good _ _ _ _ _ _ _ G Sq)).
 Qed.
 
 (* what coherence of a model state means, spelled out: no flag, and every node - stored or transient,
@@ -485,7 +485,8 @@ Lemma assign_all_RInv pos : forall rs rs', RInv rs -> assign_all LIT g rs pos = 
 Proof.
   induction pos as [|kv r IH]; intros rs rs' R E; cbn [assign_all] in E.
   - injection E as <-. exact R.
-  - destruct (err _); [discriminate|]. apply (IH _ rs'); [|exact E].
+  - destruct (err _); [discriminate|].
+    apply (IH (st' (step_with LIT g rs (Assign (fst kv) (snd kv)))) rs'); [|exact E].
     exact (step_RInv V F interp dflt g W rs _ R).
 Qed.
 
@@ -520,8 +521,30 @@ Theorem iterate_memo its ks : forall st, good st -> iterate MEMO g its ks st = i
 Proof.
   induction its as [|it r IH]; intros st G; [reflexivity|]. cbn [iterate]. unfold seq_transition.
   rewrite seq_from_memo by exact G.
-  destruct (seq_from LIT g (fst it) (snd it) 0 ks st) as [[s1 tr]|] eqn:S; [|reflexivity].
-  apply IH. exact (proj1 (seq_from_good _ _ _ _ _ _ _ G S)).
+  destruct (seq_from LIT g (fst it) (snd it) 0 ks st) as [[s1 tr]|] eqn:Sq; [|reflexivity].
+  apply IH. exact (proj1 (seq_from_good _ _ _ _ _ _ _ G Sq)).
 Qed.
+
+(* ---- the executable test of [good] used by the correspondence shards -------------------------------------- *)
+Section Dec.
+Variable veqb : V -> V -> bool.
+Hypothesis veqb_eq : forall a b, veqb a b = true -> a = b.
+
+Lemma goodb_good st : goodb interp dflt veqb g st = true -> good st.
+Proof.
+  unfold goodb. cbv zeta. intros H.
+  apply andb_true_iff in H. destruct H as [H Hc]. apply andb_true_iff in H. destruct H as [H Hf].
+  apply andb_true_iff in H. destruct H as [Hl1 Hl2]. apply Nat.eqb_eq in Hl1, Hl2.
+  split; [exact Hl1|split].
+  - apply (nth_ext _ _ false false); [rewrite repeat_length; exact Hl2|]. intros k Hk. rewrite nth_repeat.
+    rewrite forallb_forall in Hf. specialize (Hf (nth k (pf st) false) (nth_In _ _ Hk)).
+    destruct (nth k (pf st) false); [discriminate|reflexivity].
+  - intros k Ck. rewrite forallb_forall in Hc. pose proof (cached_lt F g k Ck) as Hk.
+    assert (Hin : In k (seq 0 (length g))) by (apply in_seq; lia).
+    specialize (Hc k Hin). cbv beta in Hc. rewrite (proj2 (is_cached_spec k) Ck) in Hc.
+    apply veqb_eq in Hc. rewrite Hc. rewrite (den_tab_lit V F interp dflt g W).
+    unfold Graph.getv. apply nth_map_seq. exact Hk.
+Qed.
+End Dec.
 
 End BP.
